@@ -115,7 +115,12 @@ def resource_case(srcs):
         if pairs:
             os.environ['DEEP_RESOURCE_ATTRIBUTES'] = ','.join(pairs)
         if 'svc' in env['keys'] and not env.get('blank'):
-            os.environ['DEEP_SERVICE_NAME'] = 'src1'
+            if env.get('emptyVar'):
+                # the name comes through the attribute list, DEEP_SERVICE_NAME is exported but empty
+                os.environ['DEEP_RESOURCE_ATTRIBUTES'] = ','.join(pairs + ['service.name=src1'])
+                os.environ['DEEP_SERVICE_NAME'] = ''
+            else:
+                os.environ['DEEP_SERVICE_NAME'] = 'src1'
         code = srcs[1]
         res = Resource.create({real_key[k]: ('' if (k == 'svc' and code.get('blank')) else 'src2') for k in code['keys']},
                               code['schema'] or None)
@@ -197,7 +202,12 @@ def deep_start_case(srcs):
         if pairs:
             os.environ['DEEP_RESOURCE_ATTRIBUTES'] = ','.join(pairs)
         if 'svc' in env['keys'] and not env.get('blank'):
-            os.environ['DEEP_SERVICE_NAME'] = 'src1'
+            if env.get('emptyVar'):
+                # the name comes through the attribute list, DEEP_SERVICE_NAME is exported but empty
+                os.environ['DEEP_RESOURCE_ATTRIBUTES'] = ','.join(pairs + ['service.name=src1'])
+                os.environ['DEEP_SERVICE_NAME'] = ''
+            else:
+                os.environ['DEEP_SERVICE_NAME'] = 'src1'
         names = []
         for i, p in enumerate(srcs[2:], 3):
             def make(i=i, p=p):
@@ -269,7 +279,8 @@ def deep_start_leg(c, quick):
         final = beh[-1][2]
         if final['pc'] != 5:
             continue
-        srcs = [{'keys': sorted(s['keys']), 'schema': s['schema'], 'blank': s['blank']} for s in to_json(final['srcs'])]
+        srcs = [{'keys': sorted(s['keys']), 'schema': s['schema'], 'blank': s['blank'], 'emptyVar': s['emptyVar']}
+                for s in to_json(final['srcs'])]
         if str(srcs) in seen:
             continue
         seen.add(str(srcs))
@@ -312,7 +323,8 @@ def resource_leg(c, quick):
         final = beh[-1][2]
         if final['pc'] != 5:
             continue
-        srcs = [{'keys': sorted(s['keys']), 'schema': s['schema'], 'blank': s['blank']} for s in to_json(final['srcs'])]
+        srcs = [{'keys': sorted(s['keys']), 'schema': s['schema'], 'blank': s['blank'], 'emptyVar': s['emptyVar']}
+                for s in to_json(final['srcs'])]
         if str(srcs) in seen:
             continue
         seen.add(str(srcs))
